@@ -55,6 +55,9 @@ Expected(e) ==
     [] e.fn = "neg"      -> V6Neg(e.a)
     [] e.fn = "crm"      -> CrossMotion(e.a, e.b)
     [] e.fn = "crf"      -> CrossForce(e.a, e.b)
+    \* v x (K v + d) = v x d  (bilinear, v x v = 0): operands that are NEARLY equal - the harness passes K v + d with a
+    \* large K, which 32-bit arithmetic here need not represent
+    [] e.fn = "crm_near" -> CrossMotion(e.a, e.d)
     [] e.fn = "inertia"  -> FlatM(Inertia(e.m, e.c, Unflat3(e.J)))
     [] e.fn = "inertia_add" -> FlatM(MAdd(Inertia(e.m, e.c, Unflat3(e.J)), Inertia(e.m2, e.c2, Unflat3(e.J2))))
     [] e.fn = "inertia_mul" -> MVec(Inertia(e.m, e.c, Unflat3(e.J)), e.a)
